@@ -107,3 +107,15 @@ package protocol
 //@   props C10
 //@   ensures result == 0
 //@   modifies nothing
+
+// ---------------- version selection (C13) ----------------
+//@ extern slices.Contains
+//@   modifies nothing
+//@ func ChooseSupportedVersion
+//@   props C13
+//@   ensures [none] implies(!result1, result0 == 0)
+//@   ensures [ours] implies(result1, exists(k, 0, len(ours), ours[k] == result0))
+//@   modifies nothing
+//@ loop ChooseSupportedVersion #0
+//@   invariant 0 <= rangeidx && rangeidx <= len(ours)
+//@   modifies nothing
